@@ -41,6 +41,10 @@ pub struct Class {
     class_type: ClassType,
     flags: ClassFlags,
     path_str: Arc<PathBuf>,
+    /// Only a class of the module's top level is one of the module's exports: a class that is
+    /// declared inside a function or block belongs to that scope and is created every time
+    /// control reaches it.
+    at_module_level: bool,
 }
 
 impl Compile for Class {
@@ -71,12 +75,18 @@ impl Compile for Class {
             arguments.push(dependency.name().to_owned());
         }
 
+        let bind = if self.at_module_level {
+            instruction!(export_special name id)
+        } else {
+            instruction!(store_fast name)
+        };
+
         Ok(vec![
             CompiledItem::Instruction {
                 id: MAKE_FUNCTION,
                 arguments: arguments.into(),
             },
-            instruction!(export_special name id),
+            bind,
         ])
     }
 }
@@ -368,6 +378,7 @@ impl Parser {
             flags,
             class_type,
             path_str: input.user_data().bytecode_path(),
+            at_module_level: input.user_data().is_at_module_level(),
         };
 
         Ok(result)
